@@ -433,6 +433,9 @@ def run_check(pid, tier="quick", seed=0, workers=None, budget=None, batches=None
     if budget is not None:
         cfg["wall"] = budget
     workers = workers or int(os.environ.get("VERIF_WORKERS", os.cpu_count() or 4))
+    # modules whose subject needs a very heavy import (tiled: dask, pandas, pyarrow) run fewer workers: sixteen
+    # concurrent imports contend on the file system for longer than the whole search takes
+    workers = min(workers, getattr(mod, "MAX_WORKERS", {}).get(tier, workers)) if hasattr(mod, "MAX_WORKERS") else workers
     case_timeout = cfg.get("case_timeout", 60.0)
     known = load_known()
     t0 = _perf()
